@@ -38,6 +38,11 @@ def clone(x):
 
 
 def prestate_rpms(rpms, k):
+    if k == 3:
+        # a manifest that was loaded from a file (or edited through its public mapping) holds a source-package key that add itself
+        # would never write: no epoch
+        rpms.rpms = {"Server": {"x86_64": {"glibc-2.18-11.fc20.src": {"glibc-0:2.18-11.fc20.x86_64": {"path": "p", "sigkey": None, "category": "binary"}}}}}
+        return
     if k >= 1:
         rpms.add("Server", "x86_64", "glibc-0:2.18-11.fc20.x86_64", "Server/x86_64/os/g/glibc.rpm", "246110C1", "binary",
                  "glibc-0:2.18-11.fc20.src.rpm")
@@ -346,6 +351,9 @@ def jobs(tier, seed):
                     continue
                 out.append({"harness": "rpms_step", "params": {"pre": pre, "nevra_i": ni, "srpm_i": si, "variant": "Server" if (ni + si) % 2 else "Client",
                                                               "arch_kind": "symbolic" if (ni + si) % 3 == 0 else "x86_64"}})
+    # the srpm argument is spelled exactly like a non-canonical key that is already there: still refused (missing epoch)
+    for ni in (0, 1):
+        out.append({"harness": "rpms_step", "params": {"pre": 3, "nevra_i": ni, "srpm_i": 3, "variant": "Server", "arch_kind": "x86_64"}})
     # further adds into the source package that exists already (the same RPM again, a sibling sub-package, the SRPM itself)
     for ni, si in ((0, 1), (1, 1), (3, 0)):
         out.append({"harness": "rpms_step", "params": {"pre": 2, "nevra_i": ni, "srpm_i": si, "variant": "Server", "arch_kind": "x86_64"}})
